@@ -45,10 +45,25 @@ Definition run_c07 (code : Z) (ps : list Z) (vs : list (list Z)) : option (list 
   | _ => run_c07_ntt code ps vs
   end.
 
-(* oracle: the flags must all be 1 (C11: same result from two garbage fills, nothing outside the column touched) *)
+(* oracle.  C07's statement is "the coefficient-domain result equals the exact integer product / selection,
+   limb for limb": DftAbs.v IS that exact-arithmetic specification, so the oracle compares the implementation's
+   output with it (and requires the two-fill flags of C11). *)
+Fixpoint eqzl (a b : list Z) : bool :=
+  match a, b with
+  | [], [] => true
+  | x :: a', y :: b' => (x =? y) && eqzl a' b'
+  | _, _ => false
+  end.
+Fixpoint eqzll (a b : list (list Z)) : bool :=
+  match a, b with
+  | [], [] => true
+  | x :: a', y :: b' => eqzl x y && eqzll a' b'
+  | _, _ => false
+  end.
+
 Definition oracle_c07 (code : Z) (ps : list Z) (vs outs : list (list Z)) : Z :=
   if 7100 <=? code then oracle_c07_ntt code ps vs outs else
-  match nth 1 outs [] with
-  | [1; 1; 1] => 1
-  | _ => 0
+  match run_c07 code ps vs with
+  | Some expect => if eqzll expect outs then 1 else 0
+  | None => 2
   end.
